@@ -30,7 +30,7 @@ def main():
         if a.returncode != 0:
             out["error"] = "patch does not apply: " + a.stdout[-300:]; print(json.dumps(out)); return
         r1 = sh("cd %s && cargo test --offline 2>&1 | grep 'test result' | head -n 1" % wt)
-        out["unit_tests_pass"] = "291 passed; 0 failed" in r1.stdout
+        import re as _re; _m = _re.search(r"(\d+) passed; 0 failed", r1.stdout); out["unit_tests_pass"] = bool(_m and int(_m.group(1)) >= 291)
         shutil.copy(os.path.join(d, "demo.rs"), wt + "/tests/demo.rs")
         r2 = sh("cd %s && cargo test --offline --test demo 2>&1 | tail -n 5" % wt)
         out["demo_passes_with_change"] = "test result: ok" in r2.stdout
